@@ -65,6 +65,40 @@ def tallyVotes (refs : List (List Rat)) (x : List Rat) (subsets : List (List Nat
     (fun (it, r) => (r.1, corrOf it r.1))
   return tallyCell refs.length rows
 
+/-! ### assemble_query_data: which reference rows, which child each belongs to -/
+
+/-- Python `d[k] = v` on a dict kept as an association list in insertion order:
+    overwrite in place if the key exists, else append -/
+def dictSet : List (Nat × Nat) → Nat → Nat → List (Nat × Nat)
+  | [], k, v => [(k, v)]
+  | (k', v') :: rest, k, v =>
+    if k' = k then (k, v) :: rest else (k', v') :: dictSet rest k v
+
+/-- insertion into a sorted list (`list.sort()` on names; ids are order preserving) -/
+def insSorted (x : Nat) : List Nat → List Nat
+  | [] => [x]
+  | y :: ys => if x ≤ y then x :: y :: ys else y :: insSorted x ys
+
+def sortList : List Nat → List Nat
+  | [] => []
+  | x :: xs => insSorted x (sortList xs)
+
+/-- `assemble_query_data`: `immediate_children.sort(); for child in
+    immediate_children: for leaf in tree_as_leaves[child_level][child]:
+    leaf_to_type[leaf] = child` -/
+def leafToType (kids : List Nat) (leavesOf : Nat → List Nat) : List (Nat × Nat) :=
+  (sortList kids).foldl
+    (fun acc c => (leavesOf c).foldl (fun acc leaf => dictSet acc leaf c) acc) []
+
+/-- `assemble_query_data`, the row bookkeeping: `children = sorted(leaf_to_type)`
+    are the reference rows, `reference_types[i] = leaf_to_type[children[i]]`.
+    `kids` = the children of the parent node, `leavesOf c` = `as_leaves` of child
+    `c` (both from the taxonomy tree, C10). -/
+def assembleRows (kids : List Nat) (leavesOf : Nat → List Nat) : List Nat × List Nat :=
+  let d := leafToType kids leavesOf
+  let rows := sortList (d.map (·.1))
+  (rows, rows.map (fun leaf => (d.lookup leaf).getD 0))
+
 /-! ### aggregate_votes -/
 
 /-- insert into a strictly increasing list, keeping it duplicate free -/
